@@ -509,12 +509,48 @@ def check_range(prog: Program, res: Result) -> None:
     res.floor(R, 12)
 
 
+def check_batch(prog: Program, res: Result) -> None:
+    """The consumer reads `for _ in range(batch_size)` frames per round; with batch_size <= 0 it never calls get(), never
+    sees the end-of-stream marker and spins forever while the reader blocks on put().  batch_size must reach
+    _predict_generator as the predictor's own (positive) batch_size: every make_pipeline stores self.batch_size unchanged
+    under preprocess_config['batch_size'], and the generator reads exactly that key."""
+    R = "C13-batch"
+    pm = prog.modules["sleap_nn.inference.predictors"]
+    n = 0
+    for fi in prog.all_functions():
+        if fi.module is not pm or fi.name != "make_pipeline" or fi.cls is None or fi.cls.name == "Predictor":
+            continue
+        res.touch(fi)
+        for d in [x for x in walk_function(fi.node) if isinstance(x, ast.Dict)]:
+            v = astq.dict_literal_get(d, "batch_size")
+            if v is None:
+                continue
+            n += 1
+            st = astq_enclosing(d)
+            got = norm(astq.expand_at(fi.node, v, st))
+            res.ob(R, got == "self.batch_size", fi.qualname, "preprocess_config['batch_size'] = self.batch_size",
+                   f"the consumer's batch size is set to `{got}`: it can differ from the configured batch size (0 for a queue of capacity 1 -> the consumer never reads the "
+                   "queue and inference hangs)", f"{fi.module.relpath}:{v.lineno}")
+        for s_ in walk_function(fi.node):  # later stores into the dict
+            if isinstance(s_, ast.Assign) and isinstance(s_.targets[0], ast.Subscript) and astq.const_value(s_.targets[0].slice) == "batch_size":
+                n += 1
+                got = norm(astq.expand_at(fi.node, s_.value, s_))
+                res.ob(R, got == "self.batch_size", fi.qualname, "preprocess_config['batch_size'] = self.batch_size", f"the consumer's batch size is overwritten with `{got}`", f"{fi.module.relpath}:{s_.lineno}")
+    gen = prog.func(CONSUMER)
+    rng = [lp for lp in walk_function(gen.node) if isinstance(lp, ast.For) and isinstance(lp.iter, ast.Call) and norm(lp.iter.func) == "range" and len(lp.iter.args) == 1
+           and any(isinstance(c, ast.Call) and _is_buffer_call(c, "get") for c in ast.walk(lp))]
+    ok = len(rng) == 1 and astq.xnorm(gen.node, rng[0].iter.args[0]).replace('"', "'") == "self.preprocess_config['batch_size']"
+    res.ob(R, ok, gen.qualname, "the batch loop runs range(preprocess_config['batch_size'])", "the batch loop bound is not preprocess_config['batch_size']", gen.where)
+    res.floor(R, 7)
+
+
 def check(prog: Program, res: Result) -> None:
     for r in READERS:
         check_reader(prog, res, r)
     check_ownership(prog, res)
     check_consumer(prog, res)
     check_range(prog, res)
+    check_batch(prog, res)
     res.floor("C13-final", 10)
     res.floor("C13-once", 14)
     res.floor("C13-cons", 12)
